@@ -2,6 +2,17 @@ import Mathlib.Analysis.SpecialFunctions.Log.Base
 import Mathlib.Analysis.SpecialFunctions.BinaryEntropy
 import Cpl.Model.Measures
 
+/-!
+# Lemmas for the BiEntropy family (`bien.py`) and the real-valued instance of the measures model
+
+* `realNum`: the arithmetic record `Num` instantiated with `ℝ` (also used by `Cpl.Lemmas.Apen`).
+* exact facts on `binaryDerivative` / `cyclicBinaryDerivative` (length, entries, complement, reverse, rotation);
+* Shannon entropy over the reals: closed form, invariance under permutation and injective relabelling,
+  bounds for binary strings via `Real.binEntropy`;
+* the accumulation loop `bienLoop` in closed form, `bien`/`tbien`/`ktbien` as weighted means (`wmean`),
+  range and invariance of weighted means.
+-/
+
 namespace Cpl.Bien
 open Cpl
 
@@ -31,5 +42,431 @@ theorem foldl_add (l : List ℝ) (a : ℝ) : l.foldl realNum.add a = a + l.sum :
 /-- `math.log(x, 2.0)` over the reals is the base-2 logarithm. -/
 @[simp] theorem realNum_log2 (x : ℝ) : realNum.log2 x = Real.logb 2 x := by
   simp [Num.log2, Real.logb]
+
+
+/-! ## Exact part: derivatives -/
+
+/-- Binary strings: every cell is `0` or `1`. -/
+def Bin (s : List Int) : Prop := ∀ x ∈ s, x = 0 ∨ x = 1
+
+/-- Complement of a binary string. -/
+def compl (s : List Int) : List Int := s.map (1 - ·)
+
+theorem bxor_comm (a b : Int) : bxor a b = bxor b a := by
+  unfold bxor
+  by_cases h : a = b
+  · simp [h]
+  · have h' : ¬ b = a := fun e => h e.symm
+    simp only [h, h', if_false, and_comm]
+
+theorem bxor_self (a : Int) : bxor a a = 0 := by simp [bxor]
+
+theorem bxor_compl (a b : Int) : bxor (1 - a) (1 - b) = bxor a b := by
+  unfold bxor
+  have e1 : (1 - a = 1 - b) ↔ a = b := by omega
+  have e2 : (1 - a = 0 ∨ 1 - a = 1) ↔ (a = 0 ∨ a = 1) := by omega
+  have e3 : (1 - b = 0 ∨ 1 - b = 1) ↔ (b = 0 ∨ b = 1) := by omega
+  simp only [e1, e2, e3]
+
+theorem bxor_bin {a b : Int} (ha : a = 0 ∨ a = 1) (hb : b = 0 ∨ b = 1) : bxor a b = (a + b) % 2 := by
+  rcases ha with rfl | rfl <;> rcases hb with rfl | rfl <;> decide
+
+theorem bxor_mem {a b : Int} (ha : a = 0 ∨ a = 1) (hb : b = 0 ∨ b = 1) : bxor a b = 0 ∨ bxor a b = 1 := by
+  rcases ha with rfl | rfl <;> rcases hb with rfl | rfl <;> decide
+
+theorem bd_length (s : List Int) : (binaryDerivative s).length = s.length - 1 := by
+  induction s using binaryDerivative.induct with
+  | case1 a b rest ih => simp [binaryDerivative, ih]
+  | case2 s h =>
+    match s, h with
+    | [], _ => simp [binaryDerivative]
+    | [_], _ => simp [binaryDerivative]
+    | a :: b :: rest, h => exact absurd rfl (h a b rest)
+
+theorem bd_getElem? (s : List Int) (i : Nat) (h : i + 1 < s.length) :
+    (binaryDerivative s)[i]? = some (bxor s[i] s[i + 1]) := by
+  induction s using binaryDerivative.induct generalizing i with
+  | case1 a b rest ih =>
+    cases i with
+    | zero => simp [binaryDerivative]
+    | succ j =>
+      simp only [binaryDerivative, List.getElem?_cons_succ, List.getElem_cons_succ]
+      exact ih j (by simpa using h)
+  | case2 s hs =>
+    match s, hs with
+    | [], _ => simp at h
+    | [_], _ => simp at h
+    | a :: b :: rest, hs => exact absurd rfl (hs a b rest)
+
+/-- Appending one more digit appends one more XOR. -/
+theorem bd_snoc (s : List Int) (a b : Int) :
+    binaryDerivative (s ++ [a, b]) = binaryDerivative (s ++ [a]) ++ [bxor a b] := by
+  induction s with
+  | nil => simp [binaryDerivative]
+  | cons x s ih =>
+    cases s with
+    | nil => simp [binaryDerivative]
+    | cons y t =>
+      simp only [List.cons_append, binaryDerivative] at ih ⊢
+      rw [ih]
+
+theorem bd_bin {s : List Int} (hs : Bin s) : Bin (binaryDerivative s) := by
+  induction s using binaryDerivative.induct with
+  | case1 a b rest ih =>
+    intro x hx
+    simp only [binaryDerivative, List.mem_cons] at hx
+    rcases hx with rfl | hx
+    · exact bxor_mem (hs a (by simp)) (hs b (by simp))
+    · exact ih (fun y hy => hs y (List.mem_cons_of_mem _ hy)) x hx
+  | case2 s h =>
+    match s, h with
+    | [], _ => simp [binaryDerivative, Bin]
+    | [_], _ => simp [binaryDerivative, Bin]
+    | a :: b :: rest, h => exact absurd rfl (h a b rest)
+
+theorem bd_compl (s : List Int) : binaryDerivative (compl s) = binaryDerivative s := by
+  induction s using binaryDerivative.induct with
+  | case1 a b rest ih =>
+    simp only [compl, List.map_cons, binaryDerivative] at ih ⊢
+    rw [ih, bxor_compl]
+  | case2 s h =>
+    match s, h with
+    | [], _ => simp [binaryDerivative, compl]
+    | [_], _ => simp [binaryDerivative, compl]
+    | a :: b :: rest, h => exact absurd rfl (h a b rest)
+
+theorem bd_reverse (s : List Int) : binaryDerivative s.reverse = (binaryDerivative s).reverse := by
+  induction s using binaryDerivative.induct with
+  | case1 a b rest ih =>
+    have e : (a :: b :: rest).reverse = rest.reverse ++ [b, a] := by simp
+    rw [e, bd_snoc, binaryDerivative, List.reverse_cons, ← ih, bxor_comm b a]
+    simp
+  | case2 s h =>
+    match s, h with
+    | [], _ => simp [binaryDerivative]
+    | [_], _ => simp [binaryDerivative]
+    | a :: b :: rest, h => exact absurd rfl (h a b rest)
+
+/-! ### cyclic derivative -/
+
+theorem cbd_nil : cyclicBinaryDerivative [] = [] := rfl
+
+theorem cbd_cons (a : Int) (t : List Int) :
+    cyclicBinaryDerivative (a :: t) = binaryDerivative (a :: t ++ [a]) := rfl
+
+/-- The cyclic derivative is the plain derivative followed by the XOR of the last and first digits. -/
+theorem cbd_eq (s : List Int) (h : s ≠ []) :
+    cyclicBinaryDerivative s = binaryDerivative s ++ [bxor (s.getLast h) (s.head h)] := by
+  match s, h with
+  | a :: t, h =>
+    rcases List.eq_nil_or_concat t with rfl | ⟨m, z, rfl⟩
+    · simp [cbd_cons, binaryDerivative]
+    · simp only [List.concat_eq_append]
+      rw [cbd_cons]
+      have : a :: (m ++ [z]) ++ [a] = (a :: m) ++ [z, a] := by simp
+      rw [this, bd_snoc]
+      simp
+
+theorem cbd_length (s : List Int) : (cyclicBinaryDerivative s).length = s.length := by
+  cases s with
+  | nil => rfl
+  | cons a t => rw [cbd_cons, bd_length]; simp
+
+theorem cbd_getElem? (s : List Int) (i : Nat) (h : i < s.length) :
+    (cyclicBinaryDerivative s)[i]? =
+      some (bxor s[i] (s[(i + 1) % s.length]'(Nat.mod_lt _ (by omega)))) := by
+  cases s with
+  | nil => simp at h
+  | cons a t =>
+    rw [cbd_cons, bd_getElem? _ i (by simp at h ⊢; omega)]
+    congr 2
+    · exact List.getElem_append_left (as := a :: t) (bs := [a]) h
+    · by_cases h1 : i + 1 < (a :: t).length
+      · simp only [Nat.mod_eq_of_lt h1]
+        rw [List.getElem_append_left h1]
+      · have e : i + 1 = (a :: t).length := by omega
+        simp only [e, Nat.mod_self]
+        simp
+
+theorem cbd_bin {s : List Int} (hs : Bin s) : Bin (cyclicBinaryDerivative s) := by
+  cases s with
+  | nil => simp [cbd_nil, Bin]
+  | cons a t =>
+    rw [cbd_cons]
+    apply bd_bin
+    intro x hx
+    simp only [List.cons_append, List.mem_cons, List.mem_append, List.not_mem_nil, or_false] at hx
+    rcases hx with rfl | hx | rfl
+    · exact hs _ (by simp)
+    · exact hs _ (by simp [hx])
+    · exact hs _ (by simp)
+
+theorem cbd_compl (s : List Int) : cyclicBinaryDerivative (compl s) = cyclicBinaryDerivative s := by
+  cases s with
+  | nil => rfl
+  | cons a t =>
+    have := bd_compl (a :: t ++ [a])
+    simpa [compl, cbd_cons] using this
+
+theorem cbd_rotate_one (s : List Int) :
+    cyclicBinaryDerivative (s.rotate 1) = (cyclicBinaryDerivative s).rotate 1 := by
+  match s with
+  | [] => rfl
+  | [a] => simp [cbd_cons, binaryDerivative]
+  | a :: b :: t =>
+    have e1 : (a :: b :: t).rotate 1 = b :: t ++ [a] := by simp [List.rotate_cons_succ]
+    rw [e1, cbd_cons]
+    show cyclicBinaryDerivative (b :: (t ++ [a])) = _
+    rw [cbd_cons]
+    have e2 : b :: (t ++ [a]) ++ [b] = (b :: t) ++ [a, b] := by simp
+    rw [e2, bd_snoc]
+    simp only [List.cons_append, binaryDerivative]
+    simp [List.rotate_cons_succ]
+
+theorem cbd_rotate (s : List Int) (j : Nat) :
+    cyclicBinaryDerivative (s.rotate j) = (cyclicBinaryDerivative s).rotate j := by
+  induction j with
+  | zero => simp
+  | succ j ih => rw [← List.rotate_rotate, cbd_rotate_one, ih, List.rotate_rotate]
+
+theorem cbd_reverse (s : List Int) :
+    cyclicBinaryDerivative s.reverse = (cyclicBinaryDerivative s).reverse.rotate 1 := by
+  by_cases h : s = []
+  · subst h; rfl
+  · have h' : s.reverse ≠ [] := by simpa using h
+    rw [cbd_eq _ h', cbd_eq _ h, bd_reverse]
+    simp only [List.reverse_append, List.reverse_cons, List.reverse_nil, List.nil_append,
+      List.singleton_append, List.rotate_cons_succ, List.rotate_zero]
+    rw [bxor_comm]
+    simp
+
+
+/-! ## Shannon entropy over the reals -/
+
+theorem mem_distinctSyms {xs : List Int} {y : Int} : y ∈ distinctSyms xs ↔ y ∈ xs := by
+  induction xs with
+  | nil => simp [distinctSyms]
+  | cons x xs ih =>
+    simp only [distinctSyms, List.mem_cons, List.mem_filter, ih, bne_iff_ne, ne_eq]
+    by_cases h : y = x <;> simp [h]
+
+theorem nodup_distinctSyms (xs : List Int) : (distinctSyms xs).Nodup := by
+  induction xs with
+  | nil => simp [distinctSyms]
+  | cons x xs ih =>
+    simp only [distinctSyms, List.nodup_cons, List.mem_filter, bne_iff_ne, ne_eq, not_true_eq_false,
+      and_false, not_false_eq_true, true_and]
+    exact ih.filter _
+
+theorem toFinset_distinctSyms (xs : List Int) : (distinctSyms xs).toFinset = xs.toFinset := by
+  ext y; simp [mem_distinctSyms]
+
+/-- The term `p log2 p` of a symbol occurring `c` times among `n`. -/
+noncomputable def plog (c n : ℕ) : ℝ := ((c : ℝ) / (n : ℝ)) * Real.logb 2 ((c : ℝ) / (n : ℝ))
+
+/-- Closed form of the model's entropy: `H = - ∑ p log2 p` over the set of symbols that occur, with
+    `p = count / length`. -/
+theorem shannon_eq (xs : List Int) :
+    shannon realNum xs = -∑ a ∈ xs.toFinset, plog (xs.count a) xs.length := by
+  simp only [shannon, symCounts, List.map_map, realNum_add, realNum_neg, realNum_sum, realNum_ofNat,
+    Nat.cast_zero, add_zero]
+  rw [← toFinset_distinctSyms, List.sum_toFinset _ (nodup_distinctSyms xs)]
+  simp [Function.comp_def, plog]
+
+/-- The entropy depends only on the multiset of symbols. -/
+theorem shannon_perm {xs ys : List Int} (h : xs.Perm ys) : shannon realNum xs = shannon realNum ys := by
+  rw [shannon_eq, shannon_eq, List.toFinset_eq_of_perm _ _ h, h.length_eq]
+  congr 1
+  exact Finset.sum_congr rfl fun a _ => by rw [h.count_eq]
+
+/-- An injective relabelling of the symbols keeps the entropy. -/
+theorem shannon_relabel {f : Int → Int} (hf : Function.Injective f) (xs : List Int) :
+    shannon realNum (xs.map f) = shannon realNum xs := by
+  have e : (xs.map f).toFinset = xs.toFinset.image f := by ext y; simp
+  rw [shannon_eq, shannon_eq, e, Finset.sum_image (fun a _ b _ e => hf e), List.length_map]
+  congr 1
+  exact Finset.sum_congr rfl fun a _ => by rw [List.count_map_of_injective _ _ hf]
+
+theorem shannon_compl (xs : List Int) : shannon realNum (compl xs) = shannon realNum xs :=
+  shannon_relabel (f := fun x => 1 - x) (fun a b (e : 1 - a = 1 - b) => by omega) xs
+
+theorem shannon_reverse (xs : List Int) : shannon realNum xs.reverse = shannon realNum xs :=
+  shannon_perm (List.reverse_perm xs)
+
+theorem shannon_rotate (xs : List Int) (j : Nat) : shannon realNum (xs.rotate j) = shannon realNum xs :=
+  shannon_perm (List.rotate_perm xs j)
+
+theorem count_add_count_of_bin {s : List Int} (hs : Bin s) : s.count 0 + s.count 1 = s.length := by
+  induction s with
+  | nil => rfl
+  | cons x xs ih =>
+    have ih' := ih (fun y hy => hs y (List.mem_cons_of_mem _ hy))
+    rcases hs x (by simp) with rfl | rfl <;> simp <;> omega
+
+/-- The entropy of a binary string is the binary entropy (in bits) of the frequency of `0`. -/
+theorem shannon_bin_eq {s : List Int} (hs : Bin s) (hne : s ≠ []) :
+    shannon realNum s = Real.binEntropy ((s.count 0 : ℝ) / (s.length : ℝ)) / Real.log 2 := by
+  rw [shannon_eq]
+  have hsub : s.toFinset ⊆ ({0, 1} : Finset Int) := by
+    intro x hx
+    rcases hs x (List.mem_toFinset.1 hx) with rfl | rfl <;> simp
+  rw [Finset.sum_subset hsub (fun x _ hx => by
+    have : s.count x = 0 := List.count_eq_zero.2 (fun h => hx (List.mem_toFinset.2 h))
+    simp [plog, this])]
+  rw [Finset.sum_pair (by decide)]
+  have hn : (s.length : ℝ) ≠ 0 := by
+    have : s.length ≠ 0 := by simpa using hne
+    exact_mod_cast this
+  have h1 : (s.count 1 : ℝ) / (s.length : ℝ) = 1 - (s.count 0 : ℝ) / (s.length : ℝ) := by
+    have := count_add_count_of_bin hs
+    have e : (s.count 0 : ℝ) + (s.count 1 : ℝ) = (s.length : ℝ) := by exact_mod_cast this
+    field_simp
+    linarith
+  simp only [plog]
+  rw [h1, Real.binEntropy_eq_negMulLog_add_negMulLog_one_sub, Real.negMulLog, Real.negMulLog,
+    Real.logb, Real.logb]
+  have hl : Real.log 2 ≠ 0 := (Real.log_pos (by norm_num)).ne'
+  field_simp
+  ring
+
+/-- The entropy of a binary string is between `0` and `1` bit. -/
+theorem shannon_binary_le_one {s : List Int} (hs : Bin s) :
+    0 ≤ shannon realNum s ∧ shannon realNum s ≤ 1 := by
+  by_cases hne : s = []
+  · subst hne
+    simp [shannon_eq]
+  · rw [shannon_bin_eq hs hne]
+    have hl : 0 < Real.log 2 := Real.log_pos (by norm_num)
+    have hp0 : 0 ≤ (s.count 0 : ℝ) / (s.length : ℝ) := by positivity
+    have hp1 : (s.count 0 : ℝ) / (s.length : ℝ) ≤ 1 := by
+      apply div_le_one_of_le₀ _ (Nat.cast_nonneg _)
+      exact_mod_cast List.count_le_length
+    exact ⟨div_nonneg (Real.binEntropy_nonneg hp0 hp1) hl.le,
+      (div_le_one hl).2 Real.binEntropy_le_log_two⟩
+
+
+/-! ## The BiEntropy loop in closed form -/
+
+open Finset in
+/-- The accumulation loop: after `steps` rounds starting at weight index `k` on string `s`, the two accumulators
+    have gained `∑ H(D^j s) · w(k+j)` and `∑ w(k+j)`. -/
+theorem bienLoop_eq (D : List Int → List Int) (w : ℕ → ℝ) (steps k : ℕ) (s : List Int) (tot totw : ℝ) :
+    bienLoop realNum D w steps k s tot totw =
+      (tot + ∑ j ∈ range steps, shannon realNum (D^[j] s) * w (k + j), totw + ∑ j ∈ range steps, w (k + j)) := by
+  induction steps generalizing k s tot totw with
+  | zero => simp [bienLoop]
+  | succ n ih =>
+    simp only [bienLoop, ih, realNum_add, realNum_mul]
+    rw [Finset.sum_range_succ', Finset.sum_range_succ']
+    simp only [Function.iterate_succ_apply, Function.iterate_zero, id, add_zero]
+    have e : ∀ j, k + 1 + j = k + (j + 1) := by intro j; omega
+    simp only [e]
+    ext <;> simp only <;> ring
+
+open Finset in
+/-- Weighted mean of the entropies of the successive derivatives `D^k s`, `k = 0 .. n-2`, with weights `w k`. -/
+noncomputable def wmean (D : List Int → List Int) (w : ℕ → ℝ) (s : List Int) : ℝ :=
+  (∑ k ∈ range (s.length - 1), w k * shannon realNum (D^[k] s)) / ∑ k ∈ range (s.length - 1), w k
+
+open Finset in
+theorem sum_two_pow (n : ℕ) : ∑ k ∈ range n, (2 : ℝ) ^ k = 2 ^ n - 1 := by
+  induction n with
+  | zero => simp
+  | succ n ih => rw [Finset.sum_range_succ, ih]; ring
+
+theorem bien_eq_wmean (s : List Int) : bien realNum s = wmean binaryDerivative (fun k => (2 : ℝ) ^ k) s := by
+  have e : ((2 ^ (s.length - 1) - 1 : ℕ) : ℝ) = 2 ^ (s.length - 1) - 1 := by
+    rw [Nat.cast_sub Nat.one_le_two_pow]; simp
+  simp only [bien, bienLoop_eq, realNum_mul, realNum_div, realNum_ofNat, e, wmean, sum_two_pow]
+  simp only [Nat.cast_zero, Nat.cast_one, zero_add, Nat.cast_pow, Nat.cast_ofNat]
+  rw [one_div, mul_comm, ← div_eq_mul_inv]
+  congr 1
+  exact Finset.sum_congr rfl fun k _ => mul_comm _ _
+
+/-- The `tbien`/`ktbien` weight `log2 (k + 2)`. -/
+noncomputable def wlog (k : ℕ) : ℝ := Real.logb 2 ((k : ℝ) + 2)
+
+theorem tloop_eq_wmean (D : List Int → List Int) (s : List Int) :
+    (let (tot, totw) := bienLoop realNum D (fun k => realNum.log2 (realNum.ofNat (k + 2))) (s.length - 1) 0 s
+        (realNum.ofNat 0) (realNum.ofNat 0)
+     realNum.mul (realNum.div (realNum.ofNat 1) totw) tot) = wmean D wlog s := by
+  simp only [bienLoop_eq, realNum_mul, realNum_div, realNum_ofNat, realNum_log2, wmean, wlog]
+  simp only [Nat.cast_zero, Nat.cast_one, zero_add, Nat.cast_add, Nat.cast_ofNat]
+  rw [one_div, mul_comm, ← div_eq_mul_inv]
+  congr 1
+  exact Finset.sum_congr rfl fun k _ => mul_comm _ _
+
+theorem tbien_eq_wmean (s : List Int) : tbien realNum s = wmean binaryDerivative wlog s :=
+  tloop_eq_wmean binaryDerivative s
+
+theorem ktbien_eq_wmean (s : List Int) : ktbien realNum s = wmean cyclicBinaryDerivative wlog s :=
+  tloop_eq_wmean cyclicBinaryDerivative s
+
+theorem wlog_pos (k : ℕ) : 0 < wlog k := by
+  unfold wlog
+  apply Real.logb_pos (by norm_num)
+  have : (0 : ℝ) ≤ k := Nat.cast_nonneg k
+  linarith
+
+/-! ## Range -/
+
+open Finset in
+/-- A weighted mean, with non-negative weights, of entropies in `[0, 1]` is in `[0, 1]`. -/
+theorem wmean_range {D : List Int → List Int} {w : ℕ → ℝ} {s : List Int} (hw : ∀ k, 0 ≤ w k)
+    (hH : ∀ k, 0 ≤ shannon realNum (D^[k] s) ∧ shannon realNum (D^[k] s) ≤ 1) :
+    0 ≤ wmean D w s ∧ wmean D w s ≤ 1 := by
+  unfold wmean
+  have hden : 0 ≤ ∑ k ∈ range (s.length - 1), w k := Finset.sum_nonneg fun k _ => hw k
+  have hnum : 0 ≤ ∑ k ∈ range (s.length - 1), w k * shannon realNum (D^[k] s) :=
+    Finset.sum_nonneg fun k _ => mul_nonneg (hw k) (hH k).1
+  have hle : ∑ k ∈ range (s.length - 1), w k * shannon realNum (D^[k] s) ≤ ∑ k ∈ range (s.length - 1), w k :=
+    Finset.sum_le_sum fun k _ => by
+      have := mul_le_mul_of_nonneg_left (hH k).2 (hw k)
+      simpa using this
+  exact ⟨div_nonneg hnum hden, div_le_one_of_le₀ hle hden⟩
+
+theorem iterate_bin {D : List Int → List Int} (hD : ∀ s, Bin s → Bin (D s)) {s : List Int} (hs : Bin s) (k : ℕ) :
+    Bin (D^[k] s) := by
+  induction k with
+  | zero => exact hs
+  | succ k ih => rw [Function.iterate_succ_apply']; exact hD _ ih
+
+/-! ## Invariances -/
+
+theorem wmean_congr {D : List Int → List Int} {w : ℕ → ℝ} {s t : List Int} (hlen : s.length = t.length)
+    (h : ∀ k, shannon realNum (D^[k] s) = shannon realNum (D^[k] t)) : wmean D w s = wmean D w t := by
+  unfold wmean
+  rw [hlen]
+  simp only [h]
+
+theorem iterate_compl {D : List Int → List Int} (hD : ∀ s, D (compl s) = D s) (s : List Int) (k : ℕ) :
+    shannon realNum (D^[k] (compl s)) = shannon realNum (D^[k] s) := by
+  cases k with
+  | zero => exact shannon_compl s
+  | succ k => rw [Function.iterate_succ_apply, Function.iterate_succ_apply, hD]
+
+theorem wmean_compl {D : List Int → List Int} (hD : ∀ s, D (compl s) = D s) (w : ℕ → ℝ) (s : List Int) :
+    wmean D w (compl s) = wmean D w s :=
+  wmean_congr (by simp [compl]) (iterate_compl hD s)
+
+theorem bd_iterate_reverse (s : List Int) (k : ℕ) :
+    binaryDerivative^[k] s.reverse = (binaryDerivative^[k] s).reverse := by
+  induction k generalizing s with
+  | zero => rfl
+  | succ k ih => rw [Function.iterate_succ_apply, Function.iterate_succ_apply, bd_reverse, ih]
+
+theorem cbd_iterate_rotate (s : List Int) (k j : ℕ) :
+    cyclicBinaryDerivative^[k] (s.rotate j) = (cyclicBinaryDerivative^[k] s).rotate j := by
+  induction k generalizing s with
+  | zero => rfl
+  | succ k ih => rw [Function.iterate_succ_apply, Function.iterate_succ_apply, cbd_rotate, ih]
+
+theorem cbd_iterate_reverse (s : List Int) (k : ℕ) :
+    cyclicBinaryDerivative^[k] s.reverse = (cyclicBinaryDerivative^[k] s).reverse.rotate k := by
+  induction k generalizing s with
+  | zero => simp
+  | succ k ih =>
+    rw [Function.iterate_succ_apply, Function.iterate_succ_apply, cbd_reverse, cbd_iterate_rotate, ih,
+      List.rotate_rotate]
 
 end Cpl.Bien
